@@ -171,6 +171,17 @@ def body(ctx, p):
                     detail=dict(got=list(a12.atom_type_elements)))
         a = Atoms.load_lmpdat(io.StringIO(txt % ('12.06', '39.19')), guess_atol=0.03)
         ctx.require('tolerance argument reaches the guess (0.03: fallback)', list(a.atom_type_elements) == ['1', '2'])
+        # an undefined mass ("nan", as some tools write it) is within tolerance of no element: no element is invented for it
+        H = ctx.ms.helpers
+        for bad_mass, bad_tol in ((float('nan'), 0.1), (12.0107, float('nan')), (float('inf'), 0.1)):
+            try:
+                got = H.guess_elements_from_masses([12.0107, bad_mass], max_delta=bad_tol)
+            except Exception:
+                got = None
+            ctx.require('a mass / tolerance that is not a number matches no element (the guess raises)', got is None, detail=dict(mass=str(bad_mass), tol=str(bad_tol), got=got))
+        a = Atoms.load_lmpdat(io.StringIO(txt % ('12.0107', 'nan')))
+        ctx.require('a Masses entry that is not a number makes ALL types use their numbers', list(a.atom_type_elements) == ['1', '2'] and list(a.atom_type_labels) == ['1', '2'],
+                    detail=dict(got=list(a.atom_type_elements)))
 
 
 SELFTESTS = [
